@@ -10,4 +10,8 @@ print("disagreements", n, chk.DIFF_STATS)
 c = collections.Counter(x["req"].split()[0] for x in d)
 print(c)
 for x in d[: int(sys.argv[2]) if len(sys.argv) > 2 else 5]:
-    print(x["line"], x["req"]); print("  impl ", x["impl"][:400]); print("  model", x["model"][:400])
+    a, b = x["impl"], x["model"]
+    q = 0
+    while q < min(len(a), len(b)) and a[q] == b[q]:
+        q += 1
+    print(x["line"], x["req"][:100]); print("  impl  ..", a[max(0, q - 160):q + 160]); print("  model ..", b[max(0, q - 160):q + 160])
